@@ -6,7 +6,7 @@ use crate::{
     },
     config, Result,
 };
-use std::sync::{
+use crate::vsync::{
     atomic::{AtomicU32, Ordering},
     Arc,
 };
